@@ -233,6 +233,16 @@ def probes():
                         [('plugin', plug), ('no-plugin', {})])
     P['check_sig'] = (isa.push(sig) + isa.push(PK) + O('CHECK_SIG') + b'\x00'
                       + out(), [b'o'], [('plugin', plug), ('no-plugin', {})])
+    sig3 = sig_for(3)
+    P['get_message_f3'] = (O('GET_MESSAGE') + b'\x03' + O('POP0'), [],
+                           [('plugin', plug)])
+    P['sign_f1'] = (isa.push(SEED) + O('SIGN') + b'\x01' + O('POP0'), [b's'],
+                    [('plugin', plug)])
+    P['check_sig_f3'] = (isa.push(sig3) + isa.push(PK) + O('CHECK_SIG')
+                         + b'\x0f' + out(), [b'o'], [('plugin', plug)])
+    P['check_multisig_f3'] = (isa.push(sig3) + isa.push(PK)
+                              + O('CHECK_MULTISIG') + b'\x03\x01\x01'
+                              + out(), [b'o'], [('plugin', plug)])
     P['check_sig_verify'] = (isa.push(sig) + isa.push(PK)
                              + O('CHECK_SIG_VERIFY') + b'\x00', [],
                              [('plugin', plug)])
@@ -303,11 +313,16 @@ def spec_effect(pname, label, kw):
     elif pname == 'eval_return':
         e['o'] = None if fl.get('eval_return') else b'after'
         e['keys'][b'o'] = not fl.get('eval_return')
+    elif pname == 'sign_f1':
+        e['keys'] = {b's': True}
+        e['sig_ext'] = 1
     elif pname in ('get_message', 'check_sig', 'check_sig_verify',
                    'check_multisig', 'check_multisig_verify',
-                   'taproot_keypath'):
+                   'taproot_keypath', 'get_message_f3', 'check_sig_f3',
+                   'check_multisig_f3'):
         e['sig_ext'] = 1 if has_plugin else 0
-        if pname in ('check_sig', 'check_multisig', 'taproot_keypath'):
+        if pname in ('check_sig', 'check_multisig', 'taproot_keypath',
+                     'check_sig_f3', 'check_multisig_f3'):
             e['o'] = b'\xff' if pname != 'taproot_keypath' else None
     elif pname == 'check_transfer':
         e['o'] = b'\xff'
